@@ -35,10 +35,11 @@ const int kTable = 16;   // the -! table: 2 command lines x 8 sets of driver-spe
 const int kChkAll = 1000;  // sol:chk:fail with a violating answer under every code 0..999
 const int kRepFailSites = 6; // every code x a solver query failing while the results are collected (IIS finder, rays, basis, sensitivity)
 const char* kRepFailWhere[kRepFailSites] = {"ComputeIIS", "GetIIS", "Ray", "DRay", "GetBasis", "GetSensRangesPresolved"};
+const int kCvtInfeas = 4;   // models the converter itself proves infeasible (while propagating a result): the documented class 200-299, both invocation modes
 const int kPool = 1200;     // every code with a solution pool (sol:stub, two alternative solutions written after the status is known)
 const int kSession = 200;  // one solver instance, several solve + report rounds through the AMPLS C API (standard / named .sol files)
 uint64_t enumerated(const std::string&) {
-  return (uint64_t)kCodes * kPatterns * kModes + kTable + (uint64_t)kAbortCodes * kAbortSites * kModes + kChkFail + (uint64_t)kCodes * kRound + kChkAll + kSession + (uint64_t)kCodes * kRepFailSites + kPool;
+  return (uint64_t)kCodes * kPatterns * kModes + kTable + (uint64_t)kAbortCodes * kAbortSites * kModes + kChkFail + (uint64_t)kCodes * kRound + kChkAll + kSession + (uint64_t)kCodes * kRepFailSites + kPool + kCvtInfeas;
 }
 
 sim::Json generate(const std::string& tier, uint64_t seed, uint64_t index) {
@@ -46,7 +47,23 @@ sim::Json generate(const std::string& tier, uint64_t seed, uint64_t index) {
   uint64_t n = (uint64_t)kCodes * kPatterns * kModes;
   const uint64_t nab = (uint64_t)kAbortCodes * kAbortSites * kModes;
   const uint64_t old_total = n + kTable + nab + kChkFail + (uint64_t)kCodes * kRound;
-  if (index >= old_total + kChkAll + kSession + (uint64_t)kCodes * kRepFailSites + kPool) return sim::Json();   // finite space, enumerated completely
+  if (index >= old_total + kChkAll + kSession + (uint64_t)kCodes * kRepFailSites + kPool + kCvtInfeas) return sim::Json();   // finite space, enumerated completely
+  if (index >= old_total + kChkAll + kSession + (uint64_t)kCodes * kRepFailSites + kPool) {
+    int k = (int)(index - (old_total + kChkAll + kSession + (uint64_t)kCodes * kRepFailSites + kPool));
+    // (x <= 3) && !(x <= 3), optionally one level deeper: (...) && (x >= 0), with x in [0, 5]
+    std::string body = "o21\no23\nv0\nn3\no34\no23\nv0\nn3\n";
+    if (k & 2) body = "o21\n" + body + "o28\nv0\nn0\n";
+    std::string nl = "g3 1 1 0\t# problem infeasp\n 1 0 1 0 0 1\t# vars, constraints, objectives, ranges, eqns, lcons\n 0 0\t# nonlinear constraints, objectives\n 0 0\t# network constraints: nonlinear, linear\n"
+                     " 1 0 0\t# nonlinear vars in constraints, objectives, both\n 0 0 0 1\t# linear network variables; functions; arith, flags\n 0 0 0 0 0\t# discrete variables: binary, integer, nonlinear (b,c,o)\n"
+                     " 0 1\t# nonzeros in Jacobian, gradients\n 0 0\t# max name lengths: constraints, variables\n 0 0 0 0 0\t# common exprs: b,c,o,c1,o1\n"
+                     "L0\n" + body + "O0 0\nn0\nb\n0 0 5\nk0\nG0 1\n0 1\n";
+    sim::Json sc = base_scenario(nl, (k & 1) == 0);
+    if (k & 1) sc.ref("argv").push("wantsol=1");
+    sim::Json& s = sc.ref("script");
+    s.set("status", 0); s.set("status_msg", "status-msg-for-code"); s.set("primal", "full"); s.set("dual", "none"); s.set("objvals", 1); s.set("solve_iters", 1);
+    sc.set("cvtinfeas", true); sc.set("code", 200); sc.set("mode", k & 1);
+    return sc;
+  }
   if (index >= old_total + kChkAll + kSession + (uint64_t)kCodes * kRepFailSites) {
     int c = (int)(index - (old_total + kChkAll + kSession + (uint64_t)kCodes * kRepFailSites)) - 200;
     sim::Json sc = base_scenario(tiny_mip_nl(), true);
@@ -251,6 +268,20 @@ void judge(const sim::Json& sc, const RunRecord& rec, sim::RunResult& r) {
     if (rec.rounds.size() != sc["session"]["rounds"].size()) flag("SESSION_INCOMPLETE", "rounds", "only " + std::to_string(rec.rounds.size()) + " rounds ran; " + rec.escaped_what);
     r.stats.set("session_runs", 1); r.stats.set("session_rounds", (long)rec.rounds.size());
     r.trace_sig = sim::fnv1a(std::string("session") + std::to_string(rec.rounds.size()), r.trace_sig);
+  } else if (sc["cvtinfeas"].as_bool()) {
+    std::string rk = "200-299/converter";
+    auto it = rec.files_after.find("stub.sol");
+    if (it == rec.files_after.end()) flag("NO_SOL", rk, "no stub.sol written; stderr: " + rec.err.substr(0, 300));
+    else {
+      oracle::SolFile sf = oracle::parse_sol(it->second);
+      if (!sf.ok) flag("MALFORMED_SOL", rk, sf.error);
+      else if (!in(sf.code, 200, 299)) flag("CODE_CHANGED", rk, "the converter proved the model infeasible (" + sf.message_text().substr(0, 160) + "): .sol says " + std::to_string(sf.code) + ", documented class 200-299");
+      if (sf.ok && sf.message_text().find("; objective ") != std::string::npos) flag("OBJ_SPURIOUS", rk, "objective shown for a model proven infeasible");
+    }
+    if (called(rec, "Solve")) flag("CODE_CHANGED", rk, "the solver was run on a model the converter proves infeasible");
+    r.stats.set("cvtinfeas_runs", 1);
+    long k = 777000 + sc["mode"].as_int();
+    r.trace_sig = sim::fnv1a(&k, sizeof k, r.trace_sig);
   } else if (sc["pool"].as_bool()) {
     // alternative-solution files carry the code the backend had reported when they were written
     int c = (int)sc["code"].as_int();
